@@ -36,9 +36,13 @@ META = {
              'to depth 3, packed into classes of <= 10 fields, one conforming value per field (quick: a seed-rotated third of the depth-3 positions; thorough: all) '
              '+ random class models (quick 120, thorough 2500) + 30 sub-minute-offset cases + CatchAll classes (quick 30, thorough 300; direct predicates only), '
              'x key transform {default,CAMEL,PASCAL,LISP,SNAKE,NONE} x marshal_date_time_as {unset,ISO_FORMAT,TIMESTAMP}. Four diversity axes run through every stream: '
-             'NAMES (30% from the wider grammar letter+digit*(_letter+digit*)*: one-letter words, digits at word ends), DECLARATIONS (aliases, tags, auto tags, distinct '
+             'NAMES (30% from the wider lower-case grammar letter+digit*(_{1..4}letter+digit*)*: one-letter words, digits at word ends, runs of underscores - keys checked against an '
+             'independent reference with collapsed separators; 10-15% WILD identifiers with leading/trailing underscores and capitals - outside the documented domain of the transforms, '
+             'there only model == implementation is required), DECLARATIONS (aliases, tags, auto tags, every dict-like container with the leaf as KEY and as value, Optional elements, distinct '
              'Enum classes sharing a __name__, TypedDict NotRequired/Optional keys, CatchAll), VALUES (tzinfo zoo: naive, UTC, named fixed offsets incl. zero-offset GMT/WET, '
-             'negative, sub-minute, IANA zones; huge ints, nan/inf, unicode), HISTORIES (half of the class models with nested dataclasses dump every nested instance ON ITS OWN '
+             'negative, sub-minute, IANA zones; huge ints, nan/inf, a 45-string zoo of line endings / control chars / unicode planes / look-alikes; Optional and Union elements laid out '
+             'None-first / None-in-the-middle / complex-first; RUNTIME SUBCLASSES of every hooked type (str, int, float, list, tuple, set, frozenset, deque, dict, defaultdict, OrderedDict, '
+             'datetime, date, time, timedelta, Decimal, UUID, Path) at annotated, container and Any positions - direct predicates only), HISTORIES (half of the class models with nested dataclasses dump every nested instance ON ITS OWN '
              'before the owner\'s first dump). Non-trivial: the field type has at least one container/union/class layer or a non-JSON leaf. Distinct: distinct (type label | value digest).'),
     'trusted_base': ['model coq/model/CoreDump.v (dispatch by exact type, dataclass/namedtuple tests, isinstance scan, encoders, cls_asdict keys/tag)',
                      'harness/impl/core_rt.py prints real objects as Gallina terms and as the canonical text compared with the model'],
@@ -83,7 +87,7 @@ def nontrivial_type(ty):
 def make_cases(ctx):
     cases = []
     r = ctx.sub_rng('sys')
-    g = Gen(r, {'neg_timedelta': True, 'nonfinite': True, 'ext_names': 0.3, 'same_named_enums': 0.3})
+    g = Gen(r, {'neg_timedelta': True, 'nonfinite': True, 'ext_names': 0.3, 'wild_names': 0.1, 'same_named_enums': 0.3})
     items = systematic_types(g, 3)
     d3 = [it for it in items if it[0].count('<') == 2]
     rest = [it for it in items if it[0].count('<') < 2]
@@ -130,7 +134,8 @@ def make_cases(ctx):
     n = 120 if ctx.tier == 'quick' else 2500
     for j in range(n):
         g2 = Gen(r2, {'neg_timedelta': True, 'nonfinite': r2.random() < 0.3, 'extreme_dates': False,
-                      'odd_offsets': r2.random() < 0.15, 'ext_names': 0.3, 'same_named_enums': 0.3})
+                      'odd_offsets': r2.random() < 0.15, 'ext_names': 0.3, 'wild_names': 0.15, 'same_named_enums': 0.3,
+                      'subclasses': 0.25 if j % 4 == 3 else 0})
         nf = r2.choice([1, 2, 3, 5])
         tys = [g2.rand_type(r2.choice([1, 2, 3])) for _ in range(nf)]
         aliases = {k: r2.choice(['Alias', 'my-key', 'x.y', 'with space', "quo'te", 'K']) + str(k) * (k > 0) for k in range(nf) if r2.random() < 0.15}
@@ -149,7 +154,36 @@ def make_cases(ctx):
         cfg = {'xf': r2.choice(XFS), 'dt': r2.choice(DTS)}
         if r2.random() < 0.15:
             cfg['tag_key'] = r2.choice(['kind', '__type__', 'tag'])
-        cases.append({'root': root, 'value': g2.value(root), 'cfg': cfg, 'wizard': j % 2 == 0, 'labels': {}, 'src': 'random'})
+        val = g2.value(root)
+        cases.append({'root': root, 'value': val, 'cfg': cfg, 'wizard': j % 2 == 0, 'labels': {}, 'src': 'random'})
+        if g2.used_sub:
+            cases[-1].update({'subclasses': True, 'nomodel': True, 'src': 'random+subclasses'})
+    # runtime-type axis: instances of user SUBCLASSES of every hooked type, at the annotated position, inside containers and at Any positions
+    rs = ctx.sub_rng('subclasses')
+    gs = Gen(rs, {'subclasses': 1.0, 'ext_names': 0.3})
+    sub_leaves = [gs.leaf(l) for l in ('str', 'int', 'float', 'uuid', 'decimal', 'path', 'date', 'datetime', 'time', 'timedelta')]
+    sub_leaves += [{'t': 'seq', 'k': k, 'e': {'t': 'int'}} for k in ('list', 'set', 'frozenset', 'deque')]
+    sub_leaves += [{'t': 'dict', 'k': k, 'kt': {'t': 'str'}, 'vt': {'t': 'int'}} for k in ('dict', 'defaultdict', 'ordered')]
+    sub_leaves += [{'t': 'vartuple', 'e': {'t': 'int'}}]
+    si = 0
+    for leaf in sub_leaves:
+        for w in (None, 'list', 'dictval', 'opt', 'anypos'):
+            if w == 'anypos':
+                ty = {'t': 'any'}
+            else:
+                ty = leaf if w is None else gs.wrap(w, copy.deepcopy(leaf))
+            if ty is None:
+                continue
+            root = gs.root([ty])
+            val = gs.value(root)
+            if w == 'anypos':
+                gs2 = Gen(rs, {'subclasses': 1.0, 'tz_zoo': True})
+                val['xs'][0] = gs2.value(leaf)
+            for dt in ((None, 'TIMESTAMP') if leaf.get('k') in ('date', 'datetime') else (None,)):
+                cases.append({'root': root, 'value': copy.deepcopy(val), 'cfg': {'xf': XFS[si % len(XFS)], 'dt': dt}, 'wizard': False,
+                              'labels': {root['fields'][0]['name']: 'subclass:%s<%s>' % (w, leaf.get('k', leaf['t']))}, 'src': 'subclasses',
+                              'subclasses': True, 'nomodel': True})
+                si += 1
     # CatchAll declarations: unknown keys captured in a dict field come back under their own names; the values
     # (JSON containers, and non-JSON values put there by hand) must be encoded and fresh.  Not in the Coq model
     # (C10 owns catch-all): direct predicates only.
@@ -178,7 +212,7 @@ def make_cases(ctx):
 
 
 def strip(c):
-    return {k: c[k] for k in ('root', 'value', 'cfg', 'wizard', 'pre_dump', 'catchall_items', 'nomodel') if k in c}
+    return {k: c[k] for k in ('root', 'value', 'cfg', 'wizard', 'pre_dump', 'catchall_items', 'nomodel', 'subclasses', 'wild_names') if k in c}
 
 
 def has_nested_data(ty, top=True):
@@ -199,14 +233,33 @@ def has_auto_tag(ty):
     return any(has_auto_tag(s) for s in subs)
 
 
+import re
+LOWER_NAME = re.compile(r'^[a-z]+[0-9]*(_+[a-z]+[0-9]*)*$')
+
+
+def has_wild_names(ty):
+    w = ty['t'] == 'data' and any(not LOWER_NAME.match(f['name']) for f in ty['fields'])
+    subs = [ty[k] for k in ('e', 'kt', 'vt') if k in ty] + list(ty.get('es', []))
+    subs += [f['ty'] if isinstance(f, dict) else f[1] for f in ty.get('fields', [])]
+    subs += [ft for _, ft in ty.get('req', []) + ty.get('opt', [])]
+    return w or any(has_wild_names(x) for x in subs)
+
+
 def finish_case(c, r):
     """declaration-style and history axes shared by every stream: auto tags need the root setting; a class
     model with nested dataclasses is, half of the time, run with the history "members dumped alone first".
     (Only under the default key spelling: a member dumped alone caches ITS key spelling - open finding F10.)"""
     if has_auto_tag(c['root']):
         c['cfg']['auto_tags'] = True
-    if has_nested_data(c['root']) and c['cfg'].get('xf') in (None, 'CAMEL') and not c['cfg'].get('tag_key') and r.random() < 0.5:
+    if has_nested_data(c['root']) and not c['cfg'].get('tag_key') and r.random() < 0.5:
         c['pre_dump'] = True
+        if c['cfg'].get('xf') not in (None, 'CAMEL'):
+            c['cfg']['xf'] = r.choice([None, 'CAMEL'])
+    if has_wild_names(c['root']) and (c['cfg'].get('xf') or 'CAMEL') != 'NONE':
+        # leading/trailing underscores, capitals: outside the documented domain of the key transforms; there the
+        # reference takes the KEY spelling from the library's conversion function (model == implementation is what is
+        # required of it) and checks the values independently
+        c['wild_names'] = True
     return c
 
 
